@@ -15,6 +15,7 @@ A site is reported only when the variable is tracked and the recognised constrai
 insufficient; anything unrecognised is silent.
 """
 import ast
+import re
 import copy
 
 from .srcmodel import unparse
@@ -93,6 +94,8 @@ class Analyzer(object):
         self.sites = []  # all access sites examined
         self.findings = []
         self.parse_vars = set()
+        self.split_params = set()  # parameters known to hold a split result (interprocedural entry)
+        self._depth = 0
 
     # ------------------------------------------------------------------
     def run(self):
@@ -354,10 +357,42 @@ class Analyzer(object):
             if q in ("re.search", "re.match", "re.fullmatch") and len(node.args) >= 2 and self.maybe_none(node.args[1], st):
                 self.sites.append(("none", node))
                 self.findings.append(Site("none", node, unparse(node), "a string", "may be None", self.fn.name))
+            self.split_argument(node, st)
             return
         for ch in ast.iter_child_nodes(node):
             if isinstance(ch, ast.expr):
                 self.scan(ch, st)
+
+    def split_argument(self, call, st):
+        """a split result handed whole to another function of the package: the callee is
+        analysed with that parameter known to be a split result (its isinstance test
+        holds, its optional attributes may be None unless this caller has tested them)"""
+        if self._depth >= 2 or not isinstance(call.func, ast.Name):
+            return
+        passed = [(i, a.id) for i, a in enumerate(call.args) if isinstance(a, ast.Name) and a.id in self.parse_vars]
+        if not passed:
+            return
+        ref = self.repo.resolve(self.module, call.func.id)
+        if ref is None or ref.module is None or not isinstance(ref.node, ast.FunctionDef):
+            return
+        params = [a.arg for a in ref.node.args.args]
+        sub = Analyzer(self.repo, ref.module, ref.node, self.list_producers, self.optional_attrs, self.qs_producers, self.match_producers)
+        sub._depth = self._depth + 1
+        init = State()
+        for i, name in passed:
+            if i >= len(params):
+                return
+            sub.parse_vars.add(params[i])
+            sub.split_params.add(params[i])
+            for attr in self.optional_attrs:
+                if st.opt.get(name + "." + attr, True) is False:
+                    init.opt[params[i] + "." + attr] = False
+        sub.block(ref.node.body, init)
+        self.sites.append(("none", call))
+        for f in sub.findings:
+            if f.kind == "none":
+                self.findings.append(Site("none", call, "%s -> %s" % (unparse(call), f.text), "not None", "may be None", self.fn.name))
+                break
 
     def check_subscript(self, node, st):
         base = node.value
@@ -448,6 +483,13 @@ class Analyzer(object):
         k = self.opt_key(test)
         if k is not None and pol:
             st.opt[k] = False
+            return
+        if isinstance(test, ast.Call) and isinstance(test.func, ast.Name) and test.func.id == "isinstance" and len(test.args) == 2 and isinstance(test.args[0], ast.Name) and test.args[0].id in self.split_params:
+            if "SplitResult" in unparse(test.args[1]):
+                if not pol:
+                    st.dead = True
+            elif pol and re.search(r"\b(str|string_type|bytes)\b", unparse(test.args[1])):
+                st.dead = True
             return
         if isinstance(test, ast.Call) and isinstance(test.func, ast.Attribute) and test.func.attr in ("startswith", "endswith") and pol and test.args and isinstance(test.args[0], ast.Constant) and isinstance(test.args[0].value, str):
             st.contains.add((unparse(test.func.value), test.args[0].value))
